@@ -856,8 +856,10 @@ fn cli_walk(m: &Model, ctx: &mut Ctx, f: &crate::model::FnInfo) {
         entry("d/sub.asn/Common.v1.asn", "file"),
         entry("d/sub.asn/X.680.asn1", "file"),
         entry("d/sub.asn/itu-t_x_x501_2019_SelectedAttributeTypes.asn", "file"),
+        // a module reached through a symbolic link: a regular file to a walk that follows links
+        entry("d/linked/L.asn", "link-to-file"),
     ];
-    let want = vec!["d/a/A.asn", "d/b/B.asn1", "d/sub.asn/C.asn", "d/sub.asn/Common.v1.asn", "d/sub.asn/X.680.asn1", "d/sub.asn/itu-t_x_x501_2019_SelectedAttributeTypes.asn"];
+    let want = vec!["d/a/A.asn", "d/b/B.asn1", "d/sub.asn/C.asn", "d/sub.asn/Common.v1.asn", "d/sub.asn/X.680.asn1", "d/sub.asn/itu-t_x_x501_2019_SelectedAttributeTypes.asn", "d/linked/L.asn"];
     let kind_of = |v: &Val| -> Option<String> { match v { Val::Ctor(n, _, fm) if n == "DirEntry" || n == "$path" => match fm.get("kind") { Some(Val::Str(k)) => Some(k.clone()), _ => None }, _ => None } };
     let path_of = |v: &Val| -> Option<String> { match v { Val::Ctor(n, _, fm) if n == "DirEntry" || n == "$path" => match fm.get("path") { Some(Val::Str(k)) => Some(k.clone()), _ => None }, _ => None } };
     let walk2 = walk.clone();
@@ -876,7 +878,23 @@ fn cli_walk(m: &Model, ctx: &mut Ctx, f: &crate::model::FnInfo) {
             }
             "WalkDir::new" if a.len() == 1 => Some(Ok(Val::List(walk2.clone()))),
             // the walk follows links and descends without a depth limit: builder calls that keep it so
-            ".follow_links" | ".same_file_system" | ".sort_by_file_name" | ".contents_first" if matches!(a.first(), Some(Val::List(_))) => Some(Ok(a[0].clone())),
+            // follow_links(true): what a link points to is what the entry is; follow_links(false): the entry is a symbolic link
+            ".follow_links" if matches!(a.first(), Some(Val::List(_))) => {
+                let follow = matches!(a.get(1), Some(Val::Bool(true)));
+                let Val::List(l) = &a[0] else { return None };
+                Some(Ok(Val::List(l.iter().map(|e| match e {
+                    Val::Ctor(ok, p, x) if ok == "Ok" => match p.first() {
+                        Some(Val::Ctor(n, q, fm)) if fm.get("kind") == Some(&Val::Str("link-to-file".into())) => {
+                            let mut fm2 = fm.clone();
+                            fm2.insert("kind".to_string(), Val::Str(if follow { "file" } else { "symlink" }.into()));
+                            Val::Ctor(ok.clone(), vec![Val::Ctor(n.clone(), q.clone(), fm2)], x.clone())
+                        }
+                        _ => e.clone(),
+                    },
+                    _ => e.clone(),
+                }).collect())))
+            }
+            ".same_file_system" | ".sort_by_file_name" | ".contents_first" if matches!(a.first(), Some(Val::List(_))) => Some(Ok(a[0].clone())),
             ".max_depth" | ".min_depth" if matches!(a.first(), Some(Val::List(_))) => Some(Err("the walk is limited in depth: the search is documented as recursive".into())),
             ".file_name" if a.len() == 1 => path_of(&a[0]).map(|p| Ok(Val::Str(last(&p)))),
             ".path" | ".into_path" | ".to_path_buf" if a.len() == 1 && matches!(&a[0], Val::Ctor(n, ..) if n == "DirEntry" || n == "$path") => {
